@@ -11,7 +11,8 @@
 //! the real `ConnectionHandle`s they received with `ConnectionEstablished`.
 //!
 //! case  = 3 tr n fbmask dead0 cap nops (op a b f c)*
-//!         tr 0 TCP 1 WebSocket; n protocols (1..4); protocol i has the fallback name iff bit i of
+//!         tr: bits 0-1 0 TCP 1 WebSocket 2 QUIC (harness built with the `quic` feature), bit 2 hold (long
+//!         substream-open timeout, b = 4 allowed); n protocols (1..4); protocol i has the fallback name iff bit i of
 //!         fbmask; dead0: receivers dropped before the connection is accepted; f: 0, or p+1 = the channel
 //!         of protocol p is full while the op runs (observed: has the loop ended / has the manager been
 //!         told before the channel is drained); c: slot the harness fills with the exit arm it observed
@@ -27,6 +28,10 @@
 //!         state 0 running 1 ended Ok 2 ended Err 3 panicked; arm 0, or 1 + index of the exit message
 //!         in gen_c07_msgs.rs (1 no permit, 2 error, 3 end of stream, 4 force close, 5 no command sender)
 use crate::gen_c07_msgs::{TCP_EXIT_MSGS, WS_EXIT_MSGS};
+#[cfg(feature = "quic")]
+use crate::gen_c07_msgs::QUIC_EXIT_MSGS;
+#[cfg(feature = "quic")]
+use litep2p::transport::quic::verif_loop::{verif_pair as quic_pair, VerifQuicRaw, VerifQuicStream};
 use crate::util::Rng;
 use futures::{AsyncWriteExt, FutureExt};
 use litep2p::{
@@ -84,7 +89,9 @@ impl tracing::field::Visit for MsgVisitor {
 
 impl tracing::Subscriber for Cap {
     fn enabled(&self, m: &tracing::Metadata<'_>) -> bool {
-        *m.level() <= tracing::Level::DEBUG && (m.target() == "litep2p::tcp::connection" || m.target() == "litep2p::websocket::connection")
+        *m.level() <= tracing::Level::DEBUG && (m.target() == "litep2p::tcp::connection"
+                || m.target() == "litep2p::websocket::connection"
+                || m.target() == "litep2p::quic::connection")
     }
     fn new_span(&self, _: &tracing::span::Attributes<'_>) -> tracing::span::Id {
         tracing::span::Id::from_u64(1)
@@ -136,22 +143,45 @@ fn kind_of(ev: &InnerTransportEvent) -> u64 {
     }
 }
 
-/// The remote end: drives the yamux connection, treats inbound streams by the queued policy.
+/// The remote end: a bare yamux peer (TCP, WebSocket) or a bare QUIC peer.
 enum Raw {
     Tcp(litep2p::transport::tcp::verif::VerifRawPeer),
     Ws(litep2p::transport::websocket::verif::VerifRawWsPeer),
+    #[cfg(feature = "quic")]
+    Quic(Arc<VerifQuicRaw>),
 }
+
+/// What R needs to open streams and to close.
+#[derive(Clone)]
+enum Ctl {
+    Yamux(yamux::Control),
+    #[cfg(feature = "quic")]
+    Quic(Arc<VerifQuicRaw>),
+}
+
+/// A stream at R: inbound and not negotiated yet, or negotiated and only kept open.
+enum RStream {
+    Yamux(yamux::Stream),
+    Held(#[allow(dead_code)] Box<dyn std::any::Any + Send>),
+    #[cfg(feature = "quic")]
+    Quic(VerifQuicStream),
+}
+
 impl Raw {
-    fn control(&self) -> yamux::Control {
+    fn ctl(&self) -> Ctl {
         match self {
-            Raw::Tcp(r) => r.control(),
-            Raw::Ws(r) => r.control(),
+            Raw::Tcp(r) => Ctl::Yamux(r.control()),
+            Raw::Ws(r) => Ctl::Yamux(r.control()),
+            #[cfg(feature = "quic")]
+            Raw::Quic(r) => Ctl::Quic(r.clone()),
         }
     }
-    async fn next(&mut self) -> Option<Result<yamux::Stream, yamux::ConnectionError>> {
+    async fn next(&mut self) -> Option<RStream> {
         match self {
-            Raw::Tcp(r) => r.next().await,
-            Raw::Ws(r) => r.next().await,
+            Raw::Tcp(r) => r.next().await.and_then(|x| x.ok()).map(RStream::Yamux),
+            Raw::Ws(r) => r.next().await.and_then(|x| x.ok()).map(RStream::Yamux),
+            #[cfg(feature = "quic")]
+            Raw::Quic(r) => r.next_inbound().await.map(RStream::Quic),
         }
     }
 }
@@ -169,6 +199,34 @@ async fn negotiate(
         ws_negotiate(stream, dialer, names, t).await
     };
     r.ok().map(|(s, _)| s)
+}
+
+/// R answers an inbound stream as the listener of multistream-select with `names` as its protocols.
+async fn answer(tr: u64, stream: RStream, names: Vec<String>) -> Option<RStream> {
+    match stream {
+        RStream::Yamux(s) => negotiate(tr, s, false, names).await.map(|x| RStream::Held(Box::new(x))),
+        #[cfg(feature = "quic")]
+        RStream::Quic(s) => s.negotiate(names).await.map(RStream::Quic),
+        RStream::Held(_) => None,
+    }
+}
+
+/// R opens a stream and proposes `name`; `stall`: only the multistream header is written.
+async fn remote_open(tr: u64, ctl: Ctl, name: String, stall: bool) -> Option<RStream> {
+    match ctl {
+        Ctl::Yamux(mut ctl) => {
+            let mut s = ctl.open_stream().await.ok()?;
+            if stall {
+                let _ = s.write_all(b"\x13/multistream/1.0.0\n").await;
+                let _ = s.flush().await;
+                Some(RStream::Yamux(s))
+            } else {
+                negotiate(tr, s, true, vec![name]).await.map(|x| RStream::Held(Box::new(x)))
+            }
+        }
+        #[cfg(feature = "quic")]
+        Ctl::Quic(raw) => raw.open(vec![name], stall).await.map(RStream::Quic),
+    }
 }
 
 struct St {
@@ -247,7 +305,7 @@ async fn turn() {
 }
 
 struct Remote {
-    control: yamux::Control,
+    control: Ctl,
     driver: tokio::task::JoinHandle<()>,
     policies: Arc<Mutex<VecDeque<u64>>>,
     handled: Arc<AtomicUsize>,
@@ -283,21 +341,40 @@ async fn quiesce(st: &mut St, r: &mut Remote, min_wait: Duration, max_wait: Dura
 
 /// R opens a substream and proposes `name`; `stall`: it goes silent after the multistream header.
 fn spawn_remote_open(rem: &mut Remote, tr: u64, name: String, stall: bool) {
-    let mut ctl = rem.control.clone();
+    let ctl = rem.control.clone();
     let list = if stall { &mut rem.bg } else { &mut rem.acts };
     list.push(tokio::spawn(async move {
-        let Ok(mut s) = ctl.open_stream().await else { return };
-        if stall {
-            let _ = s.write_all(b"\x13/multistream/1.0.0\n").await;
-            let _ = s.flush().await;
-            tokio::time::sleep(Duration::from_secs(60)).await;
-            drop(s);
-        } else {
-            let neg = negotiate(tr, s, true, vec![name]).await;
-            tokio::time::sleep(Duration::from_millis(60)).await;
-            drop(neg);
-        }
+        let held = remote_open(tr, ctl, name, stall).await;
+        tokio::time::sleep(if stall { Duration::from_secs(60) } else { Duration::from_millis(60) }).await;
+        drop(held);
     }));
+}
+
+/// R goes away: `graceful` closes the yamux connection first; QUIC: an application close either way.
+async fn remote_close(rem: &mut Remote, graceful: bool) {
+    match rem.control.clone() {
+        Ctl::Yamux(mut ctl) => {
+            if graceful {
+                let h = tokio::spawn(async move {
+                    let _ = ctl.close().await;
+                });
+                for _ in 0..20 {
+                    turn().await;
+                    if h.is_finished() {
+                        break;
+                    }
+                }
+                h.abort();
+            }
+        }
+        #[cfg(feature = "quic")]
+        Ctl::Quic(raw) => raw.close(),
+    }
+    for h in rem.acts.drain(..).chain(rem.bg.drain(..)) {
+        h.abort();
+    }
+    rem.driver.abort();
+    rem.up = false;
 }
 
 pub fn run_loop(case: &mut [u64]) -> Vec<u64> {
@@ -306,9 +383,10 @@ pub fn run_loop(case: &mut [u64]) -> Vec<u64> {
     }
     let (tr, n, fbmask, dead0, cap, nops) =
         (case[1], case[2] as usize, case[3], case[4], case[5] as usize, case[6] as usize);
-    let hold = tr >> 1 & 1 == 1;
+    // tr: bits 0-1 transport (0 TCP, 1 WebSocket, 2 QUIC), bit 2 hold
+    let hold = tr >> 2 & 1 == 1;
     let open_timeout = if hold { HOLD_TIMEOUT } else { OPEN_TIMEOUT };
-    if tr > 3 || !(1..=4).contains(&n) || !(1..=64).contains(&cap) || case.len() != 7 + 5 * nops || nops > 40 {
+    if tr > 7 || tr & 3 == 3 || tr == 6 || (tr & 3 == 2 && !cfg!(feature = "quic")) || !(1..=4).contains(&n) || !(1..=64).contains(&cap) || case.len() != 7 + 5 * nops || nops > 40 {
         return vec![0];
     }
     if fbmask >= 16 || dead0 >= 16 {
@@ -323,6 +401,10 @@ pub fn run_loop(case: &mut [u64]) -> Vec<u64> {
         if (op == 1 || op == 2) && ((hold && b == 3) || (!hold && b == 4)) {
             return vec![0];
         }
+        // QUIC: whether an outbound open that times out is answered is C08's business (F-C08a)
+        if op == 1 && b == 3 && tr & 3 == 2 {
+            return vec![0];
+        }
         // races: an inbound substream only together with "every handle dropped"; in hold cases only that pair
         if op == 9 && (b >= 16 || if hold { b != 0 } else { b & 8 != 0 && b & 4 == 0 }) {
             return vec![0];
@@ -331,15 +413,20 @@ pub fn run_loop(case: &mut [u64]) -> Vec<u64> {
     let msgs = Arc::new(Mutex::new(Vec::<String>::new()));
     let _guard = tracing::subscriber::set_default(Cap(msgs.clone()));
     let rt = tokio::runtime::Builder::new_current_thread().enable_all().build().unwrap();
-    let tr = tr & 1;
-    let exit_msgs: &[&str] = if tr == 0 { TCP_EXIT_MSGS } else { WS_EXIT_MSGS };
+    let tr = tr & 3;
+    // exit messages of the transport in source order, and the arm (1 no permit, 2 error, 3 end of stream,
+    // 4 force close, 5 no command sender) each of them stands for
+    let (exit_msgs, exit_arms): (&[&str], &[u64]) = match tr {
+        0 => (TCP_EXIT_MSGS, &[1, 2, 3, 4, 5]),
+        1 => (WS_EXIT_MSGS, &[1, 2, 3, 4, 5]),
+        #[cfg(feature = "quic")]
+        _ => (QUIC_EXIT_MSGS, &[1, 2, 5, 4]),
+        #[cfg(not(feature = "quic"))]
+        _ => return vec![0],
+    };
+    // (if the source has gained or lost a closed report the lists differ in length: the skeleton proofs break;
+    // the harness goes on and names what it cannot place 99)
     let result: Option<Vec<u64>> = rt.block_on(async {
-        let listener = tokio::net::TcpListener::bind("127.0.0.1:0").await.ok()?;
-        let addr = listener.local_addr().ok()?;
-        let (dialed, accepted) = tokio::join!(tokio::net::TcpStream::connect(addr), listener.accept());
-        let (dialed, accepted) = (dialed.ok()?, accepted.ok()?.0);
-        let _ = dialed.set_nodelay(true);
-        let _ = accepted.set_nodelay(true);
 
         let mut protocols = HashMap::new();
         let mut rxs = Vec::new();
@@ -419,41 +506,61 @@ pub fn run_loop(case: &mut [u64]) -> Vec<u64> {
             tr_out.extend(st.got[i].drain(..));
         }
 
-        // both ends negotiate noise + yamux
+        // both ends negotiate (noise + yamux over a loopback socket, or QUIC over loopback UDP)
         let (ka, kr) = (Keypair::generate(), Keypair::generate());
         let raw: Raw;
-        if tr == 0 {
-            let (a, r) = tokio::join!(
-                TcpConnection::verif_connection(accepted, Role::Listener, ka, id, set, open_timeout),
-                TcpConnection::verif_raw_peer(dialed, Role::Dialer, kr, Duration::from_secs(20))
-            );
-            st.fut = Some(Box::pin(a.ok()?.verif_start()));
-            raw = Raw::Tcp(r.ok()?);
+        if tr == 2 {
+            #[cfg(feature = "quic")]
+            {
+                let (a, r) = quic_pair(ka, kr, id, set, open_timeout).await?;
+                st.fut = Some(Box::pin(a.start()));
+                raw = Raw::Quic(Arc::new(r));
+            }
+            #[cfg(not(feature = "quic"))]
+            {
+                let _ = (ka, kr, set);
+                return None;
+            }
         } else {
-            let (a, r) = tokio::join!(
-                VerifWsConnection::listener(accepted, ka, id, set, open_timeout),
-                VerifWsConnection::raw_dialer(dialed, kr, Duration::from_secs(20))
-            );
-            st.fut = Some(Box::pin(a.ok()?.start()));
-            raw = Raw::Ws(r.ok()?);
+            let listener = tokio::net::TcpListener::bind("127.0.0.1:0").await.ok()?;
+            let addr = listener.local_addr().ok()?;
+            let (dialed, accepted) = tokio::join!(tokio::net::TcpStream::connect(addr), listener.accept());
+            let (dialed, accepted) = (dialed.ok()?, accepted.ok()?.0);
+            let _ = dialed.set_nodelay(true);
+            let _ = accepted.set_nodelay(true);
+            if tr == 0 {
+                let (a, r) = tokio::join!(
+                    TcpConnection::verif_connection(accepted, Role::Listener, ka, id, set, open_timeout),
+                    TcpConnection::verif_raw_peer(dialed, Role::Dialer, kr, Duration::from_secs(20))
+                );
+                st.fut = Some(Box::pin(a.ok()?.verif_start()));
+                raw = Raw::Tcp(r.ok()?);
+            } else {
+                let (a, r) = tokio::join!(
+                    VerifWsConnection::listener(accepted, ka, id, set, open_timeout),
+                    VerifWsConnection::raw_dialer(dialed, kr, Duration::from_secs(20))
+                );
+                st.fut = Some(Box::pin(a.ok()?.start()));
+                raw = Raw::Ws(r.ok()?);
+            }
         }
         let all_names: Vec<String> =
             (0..n).flat_map(|i| [main_name(i).to_string(), fb_name(i).to_string()]).collect();
         let policies = Arc::new(Mutex::new(VecDeque::<u64>::new()));
         let handled = Arc::new(AtomicUsize::new(0));
-        let control = raw.control();
+        let control = raw.ctl();
         let driver = {
             let (policies, handled, all_names) = (policies.clone(), handled.clone(), all_names.clone());
             let mut raw = raw;
             tokio::spawn(async move {
                 let mut held = Vec::new();
-                while let Some(Ok(stream)) = raw.next().await {
+                while let Some(stream) = raw.next().await {
                     let pol = policies.lock().unwrap().pop_front().unwrap_or(2);
                     let (handled, all_names) = (handled.clone(), all_names.clone());
                     match pol {
                         0 | 1 => held.push(tokio::spawn(async move {
                             let names = if pol == 0 { all_names } else { vec!["/c07/other".to_string()] };
-                            let s = negotiate(tr, stream, false, names).await;
+                            let s = answer(tr, stream, names).await;
                             handled.fetch_add(1, Ordering::SeqCst);
                             tokio::time::sleep(Duration::from_secs(3)).await;
                             drop(s);
@@ -482,7 +589,7 @@ pub fn run_loop(case: &mut [u64]) -> Vec<u64> {
             if st.state != 0 {
                 for m in msgs.lock().unwrap().iter() {
                     if let Some(ix) = exit_msgs.iter().position(|x| x == m) {
-                        arm = 1 + ix as u64;
+                        arm = exit_arms.get(ix).copied().unwrap_or(99);
                     }
                 }
             }
@@ -588,11 +695,7 @@ pub fn run_loop(case: &mut [u64]) -> Vec<u64> {
                             turn().await;
                         }
                         if mask & 2 != 0 {
-                            for h in rem.acts.drain(..).chain(rem.bg.drain(..)) {
-                                h.abort();
-                            }
-                            rem.driver.abort();
-                            rem.up = false;
+                            remote_close(&mut rem, false).await;
                             for _ in 0..3 {
                                 turn().await;
                             }
@@ -632,24 +735,7 @@ pub fn run_loop(case: &mut [u64]) -> Vec<u64> {
                     if st.state != 0 || !rem.up {
                         rc = 2;
                     } else {
-                        if b == 0 {
-                            let mut ctl = rem.control.clone();
-                            let h = tokio::spawn(async move {
-                                let _ = ctl.close().await;
-                            });
-                            for _ in 0..20 {
-                                turn().await;
-                                if h.is_finished() {
-                                    break;
-                                }
-                            }
-                            h.abort();
-                        }
-                        for h in rem.acts.drain(..).chain(rem.bg.drain(..)) {
-                            h.abort();
-                        }
-                        rem.driver.abort();
-                        rem.up = false;
+                        remote_close(&mut rem, b == 0).await;
                     }
                 }
                 _ => rc = 2,
@@ -673,7 +759,7 @@ pub fn run_loop(case: &mut [u64]) -> Vec<u64> {
             if st.state != 0 {
                 for m in msgs.lock().unwrap().iter() {
                     if let Some(ix) = exit_msgs.iter().position(|x| x == m) {
-                        arm = 1 + ix as u64;
+                        arm = exit_arms.get(ix).copied().unwrap_or(99);
                     }
                 }
             }
@@ -713,8 +799,11 @@ fn race_mask(rng: &mut Rng, hold: bool) -> u64 {
 pub fn gen_loop(rng: &mut Rng, transports: &[u64]) -> Vec<u64> {
     // one case in four runs with a substream-open timeout that is never reached: negotiations the remote
     // does not answer stay pending (and keep a permit) while the connection is closed around them
-    let hold = rng.chance(25);
-    let tr = rng.pick(transports) + if hold { 2 } else { 0 };
+    let transport = rng.pick(transports);
+    // (not on QUIC: there a pending negotiation fails by itself as soon as the connection is lost, and whether
+    // the loop reports that failure before it ends is the scheduler's choice)
+    let hold = rng.chance(25) && transport != 2;
+    let tr = transport + if hold { 4 } else { 0 };
     let n = rng.range(1, 4);
     let fbmask = rng.below(1 << n);
     let dead0 = if rng.chance(35) { rng.below(1 << n) } else { 0 };
@@ -744,7 +833,7 @@ pub fn gen_loop(rng: &mut Rng, transports: &[u64]) -> Vec<u64> {
                 stalls += 1;
                 if hold {
                     k = 4;
-                } else if stalls > 1 {
+                } else if stalls > 1 || transport == 2 {
                     k = 1;
                 }
             }
